@@ -30,7 +30,7 @@ class C12(Check):
     pid = "C12"
     title = "Optimisation over a contract returns the true optimum, None iff unbounded"
     level_text = ("Lean theorems contract_optimize_some / _none / _err / contract_bounds_enclose (PolyhedralIoContract.optimize / get_variable_bounds over the behaviours of assumptions together with guarantees; the model forms a | g with the generated list_union) and optimize_some / optimize_none / optimize_err / bounds_enclose for the model of PolyhedralTermList.optimize (status mapping "
-                  "0 -> value, 3 -> None, 2 -> ValueError, with the emptiness re-check on status 2) over any certified LP oracle, including a second oracle class in which "
+                  "0 -> value, 3 -> None, 2 -> ValueError, with the emptiness re-check on status 2) (optimize_none / contract_optimize_none without the former Proper hypothesis: the excluded point was the defect repaired by 0e454c1, whose presence is read off the source) over any certified LP oracle, including a second oracle class in which "
                   "an unbounded feasible problem may be reported `infeasible` (what HiGHS' presolve does); correspondence of value / None / ValueError with the exact optimum.")
     lean_modules = ["Pacti.Props.C12"]
     theorems = ["Pacti.C12.optimize_some", "Pacti.C12.optimize_none", "Pacti.C12.optimize_err", "Pacti.C12.bounds_enclose", "Pacti.C12.contract_optimize_some", "Pacti.C12.contract_optimize_none", "Pacti.C12.contract_optimize_err", "Pacti.C12.contract_bounds_enclose", "Pacti.C12.certified_is_ambiguous"]
